@@ -27,6 +27,9 @@ loop:
 	for ; pc < len(env.codes); pc++ {
 		env.debugState(pc, backtrack)
 		code := env.codes[pc]
+		if verifHooks {
+			env.verifStep(pc, backtrack, err)
+		}
 		if hasCtx {
 			select {
 			case <-env.ctx.Done():
